@@ -59,6 +59,7 @@ type Contract struct {
 	// PureFields: function-typed fields (callbacks into the application) assumed not to modify verifier-visible
 	// state; their results are unconstrained.
 	PureFields map[string]bool
+	Reveal     map[string]bool // opaque ghost functions whose definition this function's proof may use
 }
 
 // GhostDecl is Go source to be added to the package's ghost file.
@@ -76,6 +77,7 @@ type PkgContracts struct {
 	GhostFields map[string]bool // accessor function names that denote ghost heap fields
 	Axioms    []*Clause
 	Memos     []MemoDecl
+	Opaque    map[string]bool // ghost functions whose body is visible only where revealed
 }
 
 // MemoDecl: `//@ memo T.f pred` — field f of T is a memo cell; pred is a ghost method of *T that states
@@ -86,7 +88,7 @@ type MemoDecl struct {
 }
 
 var clauseKW = map[string]bool{"ints": true, "safety": true, "requires": true, "ensures": true, "aux": true, "modifies": true,
-	"loop": true, "call": true, "callback": true, "opaque": true, "trusted": true, "inline": true, "pure": true, "float": true}
+	"loop": true, "call": true, "callback": true, "reveal": true, "opaque": true, "trusted": true, "inline": true, "pure": true, "float": true}
 
 var reHead = regexp.MustCompile(`^(requires|ensures|aux|invariant|assert|decreases)(\[[^\]]+\])?\s*(.*)$`)
 
@@ -132,6 +134,15 @@ func ParseContracts(filename, pkgPath string, src []byte) (*PkgContracts, error)
 			cur = nil
 		case "ghost":
 			rest := strings.TrimSpace(strings.TrimPrefix(text, "ghost"))
+			if strings.HasPrefix(rest, "opaque func") {
+				rest = strings.TrimSpace(strings.TrimPrefix(rest, "opaque"))
+				if name, err := funcNameOf(strings.SplitN(rest, "{", 2)[0]); err == nil {
+					if pc.Opaque == nil {
+						pc.Opaque = map[string]bool{}
+					}
+					pc.Opaque[name] = true
+				}
+			}
 			if strings.HasPrefix(rest, "field ") {
 				// ghost field <RecvType> <name> <type>
 				f := strings.Fields(rest)
@@ -243,6 +254,13 @@ func parseClause(c *Contract, text, loc string) error {
 	case "trusted":
 		c.Opaque = true
 		c.Trusted = strings.TrimSpace(strings.TrimPrefix(text, "trusted"))
+	case "reveal":
+		if c.Reveal == nil {
+			c.Reveal = map[string]bool{}
+		}
+		for _, f := range fields[1:] {
+			c.Reveal[strings.Trim(f, ",")] = true
+		}
 	case "callback":
 		// callback <field> modifies nothing
 		if len(fields) < 2 {
